@@ -73,10 +73,15 @@ def explicit_scope(name, annots):
     return v
 
 
+RETURN_LITERAL = {"INTEGER": "1", "STRING": '"x"', "BOOL": "true", "FLOAT": "1.5", "RTIME": "10s", "TIME": "now",
+                  "IP": "client.ip"}
+
+
 class Sub:
     def __init__(self, name, rtype, annots, items, pre=()):
         self.name, self.rtype, self.annots, self.items = name, rtype, annots, items
         self.pre = list(pre)          # comment lines in front of the declaration (ignore directives ...)
+        self.params = ""              # parameter list of a functional subroutine, e.g. "STRING var.a, INTEGER var.b"
 
     def callees(self):
         out = []
@@ -88,13 +93,13 @@ class Sub:
         head = "".join(c + "\n" for c in self.pre)
         if self.annots:
             head += "# @scope: %s\n" % ", ".join(self.annots)
-        sig = "sub %s%s {\n" % (self.name, (" " + self.rtype) if self.rtype else "")
+        sig = "sub %s%s%s {\n" % (self.name, ("(%s)" % self.params) if self.params else "", (" " + self.rtype) if self.rtype else "")
         body = ""
         if self.name in FASTLY and macro:
             body += "#FASTLY %s\n" % self.name[4:]
         body += "".join("  " + t + "\n" for t, _ in self.items)
         if self.rtype:
-            body += "  return %s;\n" % {"INTEGER": "1", "STRING": '"x"', "BOOL": "true"}[self.rtype]
+            body += "  return %s;\n" % RETURN_LITERAL[self.rtype]
         return head + sig + body + "}\n"
 
 
@@ -164,6 +169,19 @@ class LintGen:
         tgt = lambda: (r.choice(list(later)) if later and r.random() < 0.75 else r.choice(names + ["ghost"]))
         fn = lambda: r.choice(funcs) if funcs and r.random() < 0.8 else "std.strlen"
         k = r.random()
+        if k < 0.05:
+            # per-subroutine context state: the re.group.N bookkeeping
+            m = r.random()
+            if m < 0.4:
+                self._c("item:regex-match-then-read")
+                return ('if (req.url ~ "^/(a)(b)?(c)") { set req.http.G = re.group.%d; } set req.http.H = re.group.%d;'
+                        % (r.randint(0, 4), r.randint(0, 4))), []
+            if m < 0.7:
+                self._c("item:regex-read-without-match")
+                return "set req.http.G = re.group.%d;" % r.randint(0, 3), []
+            self._c("item:regex-match-only")
+            return r.choice(['if (req.http.A ~ "x(y)(z)") { esi; }', 'if (req.http.A !~ "(q)") { esi; }',
+                             'set req.http.R = if(req.url ~ "(u)", "1", "0");']), []
         if k < 0.30:
             self._c("item:call")
             t = tgt()
@@ -247,7 +265,7 @@ class LintGen:
                 annots = r.sample(ANNOT, r.choice([1, 1, 2, 3]))
                 if r.random() < 0.2:
                     annots.append("bogus")
-            rtype = r.choice(["INTEGER", "STRING", "BOOL"]) if kind == "func" else None
+            rtype = r.choice(["INTEGER", "STRING", "BOOL", "STRING", "BOOL", "FLOAT", "RTIME", "TIME", "IP"]) if kind == "func" else None
             if kind == "func" and r.random() < 0.3:
                 annots = r.sample(ANNOT, r.choice([1, 2]))
             later = [x for x in names[si + 1:] if x != nm]
@@ -256,8 +274,15 @@ class LintGen:
             pre = [r.choice(IGNORES)] if r.random() < (0.5 if kind == "rejected" else 0.12) else []
             if pre and pre[0].endswith("-start"):
                 items = items + [("// falco-ignore-end", [])]
-            subs.append(Sub(nm, rtype, annots, items, pre))
+            sb = Sub(nm, rtype, annots, items, pre)
+            if kind == "func" and r.random() < 0.3:
+                sb.params = r.choice(["STRING var.a", "STRING var.a, INTEGER var.b", "BOOL var.f"])
+                sb.items = list(sb.items) + [r.choice([('set req.http.P = var.a;', []), ('if (var.f) { esi; }', []),
+                                                         ('set req.http.P = "p" var.b;', [])])]
+                self._c("sub:func-with-parameters")
+            subs.append(sb)
             self._c("sub:" + kind)
+            self._c("sub:return-" + str(rtype))
         return self.with_declarations(subs), []
 
     def with_declarations(self, subs):
@@ -337,7 +362,7 @@ class LintGen:
         return out
 
     # ---------------------------------------------------------------- call-graph shapes
-    LEAF_SENSITIVE = ["restart;", "esi;", "error 601;", "set beresp.ttl = 10s;", 'set resp.http.L = "1";',
+    LEAF_SENSITIVE = ['if (req.url ~ "^/(a)(b)") { esi; }', "set req.http.G = re.group.1;", "set req.http.G = re.group.2;", "restart;", "esi;", "error 601;", "set beresp.ttl = 10s;", 'set resp.http.L = "1";',
                       "set req.http.S = resp.status;", 'set bereq.http.B = "1";', "set obj.status = 500;",
                       "return(pass);", "return(deliver);", 'synthetic "x";', "set req.http.O = obj.status;",
                       'set req.http.C = beresp.http.Cache-Control;', "return(lookup);"]
@@ -400,7 +425,7 @@ class LintGen:
                 for _ in range(r.choice([1, 1, 2])):
                     items.insert(r.randint(0, len(items)), (r.choice(self.LEAF_SENSITIVE), []))
             annots = r.sample(ANNOT, r.choice([1, 2])) if kinds[nm] == "annot" else []
-            rtype = "BOOL" if kinds[nm] == "func" else None
+            rtype = "BOOL" if kinds[nm] == "func" else None          # used in if (f()) conditions
             if rtype:
                 items = [(t, c) for t, c in items if not t.startswith("return")]
             pre = [r.choice(IGNORES[:4])] if r.random() < (0.5 if kinds[nm] == "rejected" else 0.08) else []
